@@ -432,6 +432,9 @@ def _splice_tokens(t) -> tuple:
         return tuple(("elem", ("const", x)) for x in t[1])
     if t[0] == "comp" and t[1] in ("ListComp", "GeneratorExp") and len(t[3]) == 1:
         tgt, it, conds = t[3][0]
+        # `for .. in X or ()`: nothing when X is empty / None, X's items otherwise - the items of X
+        if it[0] == "bool" and it[1] == "Or" and len(it[2]) == 2 and it[2][1] in (("tuple", ()), ("list", ()), ("const", ()), ("const", "")):
+            it = it[2][0]
         item = ("iter", it)
         m: dict = {}
         if tgt[0] == "cvar":
@@ -725,10 +728,18 @@ def _t1(ctx: Context) -> None:
         return
     # ---- skeleton: head = <sep>.join(<list>).encode(<utf-8>) [+ body]
     joins = set()
+    terminators: set = set()
     with_body = without_body = False
     for a in _alts(full):
         parts = list(a[1]) if a[0] == "add" else [a]
         head, extras = parts[0], [strip_sites(x) for x in parts[1:]]
+        # (<sep>.join(<lines>) + <terminator>).encode(): the head's final empty line written as an explicit terminator
+        if (_is_call(head) and head[1][0] == "attr" and head[1][2] == "encode" and head[1][1][0] == "add" and len(head[1][1][1]) == 2
+                and head[1][1][1][1][0] == "const" and isinstance(head[1][1][1][1][1], str)):
+            terminators.add(head[1][1][1][1][1])
+            head = ("call", ("attr", head[1][1][1][0], "encode")) + tuple(head[2:])
+        else:
+            terminators.add(None)
         if not (_is_call(head) and head[1][0] == "attr" and head[1][2] == "encode" and _is_call(head[1][1], 1)
                 and head[1][1][1][0] == "attr" and head[1][1][1][2] == "join" and not head[1][1][3]):
             ck.unknown("C09.T1", f"request bytes are not <sep>.join(<lines>).encode(): {show(a, 200)}", ctx.loc(f, node))
@@ -788,6 +799,16 @@ def _t1(ctx: Context) -> None:
         return
     jn, jc = cands[0]
     seqs = list_sequences(ctx, cfg, jn, jc.args[0])
+    if terminators != {None}:
+        if len(terminators) != 1:
+            ck.unknown("C09.T1", f"the request head is terminated in different ways on different paths: {sorted(map(repr, terminators))}", ctx.loc(f, node))
+            return
+        term = next(iter(terminators))
+        ck.check("C09.T1", term == sep[1] * 2, "request(): the explicit terminator after the joined lines is the separator twice (the two empty lines)",
+                 f"{fk}:terminator", f"request(): the joined lines are followed by {term!r}; the head ends with CRLF CRLF", ctx.loc(f, node))
+        if term != sep[1] * 2:
+            return
+        seqs = frozenset(tuple(sq) + (("elem", ("const", "")), ("elem", ("const", ""))) for sq in seqs)
     cls = lambda t: _classify_line(t, p_self, p_method, p_target, p_headers)  # noqa: E731
     n_ok = 0
     for seq in sorted(seqs, key=_show_seq):
@@ -815,16 +836,21 @@ def _t1(ctx: Context) -> None:
         if with_body and without_body:
             ck.unknown("C09.T1", "cannot attribute the body/no-body alternatives to definitions", ctx.loc(f, node))
         return
-    appenders = [dn for dn, d, _v in origins if d.kind == "aug"]
-    heads = [dn for dn, d, _v in origins if d.kind != "aug"]
+    # the definitions that put the body behind the head (`x += body`, or `x = head + body`), wherever they stand
+    def _with_body(dn, d) -> bool:
+        if d.kind == "aug":
+            return True
+        return d.kind == "assign" and d.value is not None and contains(T.of(cfg, cfg.nodes[dn], d.value), lambda s_: s_ == ("param", p_body))
+
+    appenders = [dn for dn, d, _v in origins if _with_body(dn, d)]
     present, absent = _truth_edges(ctx, cfg, ("param", p_body))
     for b in appenders:
         ctx.must_pass("C09.T1", cfg, b, "body test [present outcome]", present,
                       desc="request(): the body is appended only on the body-present outcome")
-    for a in heads:
-        ctx.must_pass("C09.T1", cfg, node, "body test [absent outcome]", absent, start=a, avoid_nodes=appenders,
-                      desc="request(): the head is sent alone only on the body-absent outcome")
-    _require_min(ck, "C09.T1", "buffer shapes (with / without headers)", len(seqs), 2)
+    # every way to the send that does not append the body took the body-absent outcome
+    ctx.must_pass("C09.T1", cfg, node, "body test [absent outcome]", absent, avoid_nodes=appenders,
+                  desc="request(): the head is sent alone only on the body-absent outcome")
+    _require_min(ck, "C09.T1", "buffer shapes (with / without headers)", len(seqs), 1)
 
 
 # ---------------------------------------------------------------------- plumbing shared by K1 / K3 / K4
@@ -1103,6 +1129,25 @@ def _k2(ctx: Context) -> None:
                 defs = [(dn, d) for dn, d in du.reaching(node.id, value.func.value.id) if d.kind == "assign" and not d.path]
                 if defs and len(defs) == len(t[1]) and len({strip_sites(T.of(cfg, cfg.nodes[dn], d.value)) for dn, d in defs}) == len(defs):
                     sites = [(f, cfg, cfg.nodes[dn], alt, None) for (dn, d), alt in zip(defs, t[1])]
+            if t[0] == "phi" and len(sites) == 1 and sites[0][3] is t:
+                # the choice lies deeper: follow the value through its single definitions to the local that has one
+                # definition per alternative (`literal = f"[{h}]" if ":" in h else h; header = f"Host: {literal}"`)
+                du = T.du(cfg)
+                seen_n: set = set()
+                work = [(node.id, x.id) for x in ast.walk(value) if isinstance(x, ast.Name)]
+                found = None
+                while work and found is None and len(seen_n) < 40:
+                    at, nm = work.pop(0)
+                    if (at, nm) in seen_n or nm not in du.local_names:
+                        continue
+                    seen_n.add((at, nm))
+                    defs = [(dn, d) for dn, d in du.reaching(at, nm) if d.kind == "assign" and not d.path]
+                    if len(defs) == len(t[1]) and len(du.reaching(at, nm)) == len(defs):
+                        found = defs
+                    elif len(defs) == 1 and len(du.reaching(at, nm)) == 1:
+                        work += [(defs[0][0], x.id) for x in ast.walk(defs[0][1].value) if isinstance(x, ast.Name)]
+                if found is not None:
+                    sites = [(f, cfg, cfg.nodes[dn], alt, None) for (dn, d), alt in zip(found, t[1])]
             if t[0] == "call" and t[1][0] == "glob" and t[1][1] in ctx.prog.functions and not t[3]:
                 g = ctx.prog.functions[t[1][1]]
                 if not g.is_async and not g.is_generator and not isinstance(g.node, ast.Lambda) and len(t[2]) <= len(g.pos_params):
